@@ -39,7 +39,7 @@ for d in sorted(glob.glob(V + '/seeded/C*')):
         rc = int(m.group(1)) if m else None
         am = re.search(r'^  assert=(\S+) harness=(\S+)', log, re.M)
         results[p] = dict(check_exit=rc, caught=(rc == 1), assert_=am.group(1) if am else None, harness=am.group(2) if am else None)
-    files = [l[6:].split(' ')[0] for l in open(d + '/patch.diff') if l.startswith('+++ b/')]
+    files = [l[6:].split(' ')[0].strip() for l in open(d + '/patch.diff') if l.startswith('+++ b/')]
     meta = dict(seed=name, property=prop, files_changed=files,
                 needs_to_manifest=(re.search(r'(?is)(what (it )?(needs|takes)[^\n]*\n)(.{0,900})', notes).group(4).strip() if re.search(r'(?is)what (it )?(needs|takes)', notes) else 'see notes_from_seeder.md'),
                 verified=dict(suite_passes_with_change=(ex('suite_exit') == 0), demo_fails_with_change=(ex('demo_with_exit') == 1), demo_passes_without_change=(ex('demo_without_exit') == 0),
@@ -56,4 +56,4 @@ with open(V + '/seeded/STATUS.md', 'w') as f:
         c = "; ".join(f"{p}: {r['assert_']} ({r['harness']})" if r['caught'] else f"{p}: not fired (exit {r['check_exit']})" for p, r in m['checks'].items())
         if m.get('superseded_by_fix'):
             c = "superseded by a fix (see meta.json) - " + c
-        f.write(f"| {m['seed']} | {m['property']} | {', '.join(m['files_changed'])} | {c} |\n")
+        f.write(f"| {m['seed']} | {m['property']} | {', '.join(x.strip() for x in m['files_changed'])} | {c} |\n")
